@@ -29,7 +29,8 @@ RULE = ("job = seed -> family.  'fault': honest two-endpoint handshake of a "
         "victim never completes.  'agree': honest handshakes over every "
         "FFDH/ECDH/X25519/X448 group end with equal secrets.  distinct = "
         "digest(family, scenario, fault); non-trivial = fault fired / bad "
-        "share emitted / group negotiated")
+        "share emitted / group negotiated"
+        ' TLS 1.3 key shares also carry the honest point in compressed / hybrid / raw X9.62 encodings (must be refused).')
 LEVEL_TEXT = ("Seeded fault injection at private-key operations and seeded "
               "search over invalid peer shares in live handshakes.  The "
               "pure clauses of C10 (sign/verify soundness and strictness "
